@@ -41,6 +41,15 @@ def run(repo):
     if ctor is None:
         raise AnalysisError('lp.Model.do_math: LinProg(...) not found in the primal branch')
     env = bind_args(repo.func('lp.LinProg.__init__'), ctor)
+    from rsx.flow import MustFlow as _MF, holds as _holds
+    from .common import single_defs, expand_locals
+    fdefs = single_defs(fi.node)
+    st_states = {}
+
+    class _F(_MF):
+        def visit(self, node, state):
+            st_states[id(node)] = state
+    _F().run(primal)
     for which, fn, start, btype in (('ub', 'np.minimum', 'np.inf', 'U'), ('lb', 'np.maximum', '-np.inf', 'L')):
         v = env[which]
         if not isinstance(v, ast.Name):
@@ -48,8 +57,11 @@ def run(repo):
         name = v.id
         inits = [n for n in ast.walk(mod) if isinstance(n, ast.Assign) and
                  any(isinstance(t, ast.Name) and t.id == name for t in n.targets)]
-        ok_init = len(inits) == 1 and 'inf' in ntext(inits[0].value) and \
-            (('-' in ntext(inits[0].value)) == (which == 'lb'))
+        itxt = ntext(expand_locals(fi.node, inits[0].value, defs=fdefs)) if inits else ''
+        # -(+inf vector) is the -inf vector: count the minus signs
+        ok_init = len(inits) == 1 and 'inf' in itxt and ((itxt.count('-') % 2 == 1) == (which == 'lb'))
+        if inits and len(inits) == 1 and 'inf' not in itxt and not isinstance(inits[0].value, (ast.Call, ast.BinOp, ast.UnaryOp)):
+            raise AnalysisError('lp.Model.do_math: initial value of %s (`%s`) not interpreted' % (which, itxt[:40]))
         res.inst({'vector': which, 'initialised': ntext(inits[0].value)[:40] if inits else None, 'ok': ok_init}, ok_init)
         if not ok_init:
             res.fail(Finding(RULE, fi.fq, '%s initial value' % which,
@@ -78,7 +90,7 @@ def run(repo):
                 par[id(c)] = n
         for st in stores:
             tgt = st.targets[0] if isinstance(st, ast.Assign) else st.target
-            val = st.value
+            val = expand_locals(fi.node, st.value, depth=2, defs=fdefs)
             probs = []
             if isinstance(st, ast.AugAssign):
                 probs.append('augmented assignment is not an intersection')
@@ -95,12 +107,27 @@ def run(repo):
             cur, under, in_loop = st, False, False
             while id(cur) in par:
                 p = par[id(cur)]
-                if isinstance(p, ast.If) and any(cur is s for s in p.body) and \
-                        "btype == '%s'" % btype in ntext(p.test):
-                    under = True
-                if isinstance(p, ast.For) and any(is_self_attr(x, 'bounds') for x in ast.walk(p.iter)):
-                    in_loop = True
+                if isinstance(p, ast.For):
+                    it = expand_locals(fi.node, p.iter, depth=2, defs=fdefs)
+                    if any(is_self_attr(x, 'bounds') for x in ast.walk(it)):
+                        in_loop = True
+                    # a filtered iteration:  for b in [b for b in .. if b.btype == 'U']
+                    for g in [g for x in ast.walk(it) if isinstance(x, (ast.ListComp, ast.GeneratorExp))
+                              for g in x.generators]:
+                        if any("btype == '%s'" % btype in ntext(c) for c in g.ifs):
+                            under = True
                 cur = p
+            stt = st_states.get(id(st))
+            if stt is not None and isinstance(tgt.value, ast.Name):
+                # the loop variable is the object whose .btype is tested
+                for f_ in stt:
+                    pass
+                from rsx.flow import clauses_of
+                for c in clauses_of(stt):
+                    if len(c) == 1:
+                        a, pol = next(iter(c))
+                        if pol and a.endswith(".btype == '%s'" % btype):
+                            under = True
             if not under:
                 probs.append("not under `btype == '%s'`" % btype)
             if not in_loop:
